@@ -67,7 +67,7 @@ Proof. reflexivity. Qed.
 Lemma nav1_flags_monotone t n p t' n' :
   nav1 t n p = NOk t' n' -> f_le (nfl n) (nfl n') = true.
 Proof.
-  destruct p as [a|a| | |nm|nm|rel|c a|tgt|f]; simpl;
+  destruct p as [a|a| | |nm|nm|rel|c a|tgt|f|h]; simpl;
     unfold nav_lookup, nav_listed, nav_create, nav_parent, nav_file, nav_query.
   - destruct (nkind n); [|destruct (so (nfl n)); discriminate].
     destruct (guard_path n a); [discriminate|].
@@ -105,6 +105,10 @@ Proof.
       destruct (lookup t tgt); [|discriminate].
       intros H; inversion H; subst; apply f_le_refl.
   - intros H; inversion H; subst; simpl. apply f_le_or_l.
+  - unfold nav_meta. destruct (so (nfl n)); [discriminate|].
+    destruct (negb (has_objs t (npath n))); [discriminate|].
+    destruct h; unfold nav_file, nav_parent, meta_node; simpl; rewrite ?orb_true_r; try discriminate.
+    intros H; inversion H; subst; simpl. apply f_le_or_l.
 Qed.
 
 Lemma nav_flags_monotone ch : forall t n t' n',
@@ -123,7 +127,7 @@ Lemma nav1_ro_tree t n p t' n' :
   ro (nfl n) = true -> nav1 t n p = NOk t' n' -> t' = t.
 Proof.
   intros R.
-  destruct p as [a|a| | |nm|nm|rel|c a|tgt|f]; simpl;
+  destruct p as [a|a| | |nm|nm|rel|c a|tgt|f|h]; simpl;
     unfold nav_lookup, nav_listed, nav_create, nav_parent, nav_file, nav_query.
   - destruct (nkind n); [|destruct (so (nfl n)); discriminate].
     destruct (guard_path n a); [discriminate|].
@@ -149,6 +153,10 @@ Proof.
     destruct (is_prefix (npath n) tgt); [|discriminate].
     destruct (lookup t tgt); [|discriminate]. intros H; inversion H; reflexivity.
   - intros H; inversion H; reflexivity.
+  - unfold nav_meta. destruct (so (nfl n)); [discriminate|].
+    destruct (negb (has_objs t (npath n))); [discriminate|].
+    destruct h; unfold nav_file, nav_parent, meta_node; simpl; rewrite ?orb_true_r; try discriminate.
+    intros H; inversion H; reflexivity.
 Qed.
 
 Lemma nav_ro ch : forall t n t' n',
@@ -184,8 +192,9 @@ Lemma guard_ro n o :
   ro (nfl n) = true -> mutating o = true ->
   guard n o = Refused \/ guard n o = NotApplicable.
 Proof.
-  intros R M. unfold guard. destruct o as [g a|a b|a b|a| | | |name|a|m]; simpl in M; try discriminate.
+  intros R M. unfold guard. destruct o as [g a|a b|a b| |a| | | |name|a|m]; simpl in M; try discriminate.
   - destruct (nkind n); [left|right; reflexivity]. rewrite R, orb_true_r. reflexivity.
+  - destruct (nkind n); [left|right; reflexivity]. rewrite R. reflexivity.
   - destruct (nkind n); [left|right; reflexivity]. rewrite R. reflexivity.
   - destruct (nkind n); [left|right; reflexivity]. rewrite R. reflexivity.
   - destruct (nkind n); [right; reflexivity|left]. rewrite R. reflexivity.
@@ -229,7 +238,7 @@ Lemma guard_so n o :
   so (nfl n) = true -> revealing o = true ->
   guard n o = Refused \/ guard n o = NotApplicable.
 Proof.
-  intros R M. unfold guard. destruct o as [g a|a b|a b|a| | | |name|a|m]; simpl in M; try discriminate.
+  intros R M. unfold guard. destruct o as [g a|a b|a b| |a| | | |name|a|m]; simpl in M; try discriminate.
   - destruct (nkind n); [right; reflexivity|left]. rewrite R. reflexivity.
   - left. unfold guard_attr, attr_wrapped. rewrite R, orb_true_r; simpl.
     destruct a as [ | | | | | |name present]; try discriminate; try reflexivity.
@@ -273,7 +282,7 @@ Lemma nav1_local R t n p t' n' :
   local_inv R n -> nav1 t n p = NOk t' n' -> local_inv R n'.
 Proof.
   intros I. pose proof I as (L & P & F).
-  destruct p as [a|a| | |nm|nm|rel|c a|tgt|f]; simpl;
+  destruct p as [a|a| | |nm|nm|rel|c a|tgt|f|h]; simpl;
     unfold nav_lookup, nav_listed, nav_create, nav_parent, nav_file, nav_query, guard_path, target.
   - destruct (nkind n); [|destruct (so (nfl n)); discriminate]. rewrite L; simpl.
     destruct (pabs a); [discriminate|].
@@ -310,6 +319,11 @@ Proof.
     eapply is_prefix_trans; eassumption.
   - intros H; inversion H; subst. unfold local_inv, restrict; simpl. rewrite L; simpl.
     repeat split; try assumption. destruct (lo f); [constructor|assumption].
+  - unfold nav_meta. destruct (so (nfl n)); [discriminate|].
+    destruct (negb (has_objs t (npath n))); [discriminate|].
+    destruct h; unfold nav_file, nav_parent, meta_node; simpl; rewrite ?orb_true_r; try discriminate.
+    intros H; inversion H; subst. unfold local_inv; simpl. rewrite orb_true_r.
+    repeat split; [assumption|constructor].
 Qed.
 
 Lemma nav_local ch : forall R t n t' n',
@@ -327,7 +341,7 @@ Lemma guard_lo n o :
   lo (nfl n) = true -> upward o = true -> guard n o = Refused \/ guard n o = NotApplicable.
 Proof.
   intros Lo U. unfold guard, guard_path.
-  destruct o as [g a|a b|a b|a| | | |name|a|m]; simpl in U; try discriminate;
+  destruct o as [g a|a b|a b| |a| | | |name|a|m]; simpl in U; try discriminate;
     (destruct (nkind n); [left|right; reflexivity]); rewrite Lo; simpl.
   - rewrite U; reflexivity.
   - destruct (ro (nfl n)); [reflexivity|]. simpl.
@@ -411,9 +425,9 @@ Proof. simpl. repeat split; [apply f_le_or_l|apply f_le_or_r]. Qed.
 (** ** The pinned rules lose restrictions *)
 
 Definition demo_tree : tree :=
-  [mkE ["g"] KGroup true; mkE ["g"; "h"] KGroup false;
-   mkE ["g"; "h"; "d"] KDataset true; mkE ["g"; "e"] KDataset false;
-   mkE ["top"] KDataset false].
+  [mkE ["g"] KGroup true true; mkE ["g"; "h"] KGroup false false;
+   mkE ["g"; "h"; "d"] KDataset true true; mkE ["g"; "e"] KDataset false false;
+   mkE ["top"] KDataset false true].
 
 (** [file] of a read_only group is the unrestricted container. *)
 Lemma pinned_file_refuted :
@@ -447,4 +461,63 @@ Proof.
   exists demo_tree, (mkN ["g"] KGroup (mkF false true false) []),
     [PGetItem (mkP false ["h"]); PRestrict (mkF false false true); PParent].
   eexists; eexists. vm_compute. repeat split. eexists. repeat split.
+Qed.
+
+(** ** Metadata listings: the pinned rule hands out raw objects (recorded known finding) *)
+
+(** read_only: the object handed out accepts mutations (dataset write on [.node],
+    create_group on [.node.file] and on [.node.parent]). *)
+Lemma pinned_meta_ro_refuted :
+  exists t start,
+    ro (nfl start) = true /\
+    (exists t' n, nav1_pinned_meta t start (PMeta HNode) = NOk t' n /\
+                  ro (nfl n) = false /\ guard n ODsWrite = Passed /\ guard n (OAttr ASetItem) = Passed) /\
+    (exists t' n, nav1_pinned_meta t start (PMeta HFile) = NOk t' n /\
+                  guard n (OGrp GCreateGroup (mkP false ["x"])) = Passed) /\
+    (exists t' n, nav1_pinned_meta t start (PMeta HParent) = NOk t' n /\
+                  guard n (OGrp GCreateGroup (mkP false ["x"])) = Passed).
+Proof.
+  exists demo_tree, (mkN ["g"] KGroup (mkF true false false) []).
+  split; [reflexivity|]. repeat split; eexists; eexists; vm_compute; repeat split.
+Qed.
+
+(** local_only: [.node.file] is the whole container, above the local root, and is not
+    local_only itself. *)
+Lemma pinned_meta_lo_refuted :
+  exists t start t' n,
+    lo (nfl start) = true /\ nstack start = [] /\
+    nav1_pinned_meta t start (PMeta HFile) = NOk t' n /\
+    is_prefix (npath start) (npath n) = false /\ lo (nfl n) = false /\
+    exists t'' m, nav1 t' n (PGetItem (mkP true ["top"])) = NOk t'' m.
+Proof.
+  exists demo_tree, (mkN ["g"] KGroup (mkF false true false) []).
+  eexists; eexists. vm_compute. repeat split. eexists; eexists; reflexivity.
+Qed.
+
+(** The two rules agree on when a listing is refused or empty; they differ in what is handed out. *)
+Lemma meta_rules_same_refusals t n h :
+  (nav_meta_pinned t n h = NRefused <-> so (nfl n) = true) /\
+  (so (nfl n) = true -> nav_meta t n h = NRefused) /\
+  (so (nfl n) = false -> has_objs t (npath n) = false ->
+     nav_meta t n h = NErr /\ nav_meta_pinned t n h = NErr).
+Proof.
+  unfold nav_meta, nav_meta_pinned. destruct (so (nfl n)); simpl.
+  - repeat split; try reflexivity; intros; discriminate.
+  - repeat split; try discriminate.
+    + destruct (negb (has_objs t (npath n))); discriminate.
+    + rewrite H0; reflexivity.
+    + rewrite H0; reflexivity.
+Qed.
+
+(** Under the demanded rule nothing but the object node itself is handed out, it carries the
+    owner's flags, and it is a local root. *)
+Lemma meta_demanded t n h t' m :
+  nav_meta t n h = NOk t' m ->
+  h = HNode /\ t' = t /\ npath m = npath n /\ f_le (nfl n) (nfl m) = true /\
+  lo (nfl m) = true /\ nstack m = [].
+Proof.
+  unfold nav_meta. destruct (so (nfl n)); [discriminate|].
+  destruct (negb (has_objs t (npath n))); [discriminate|].
+  destruct h; unfold nav_file, nav_parent, meta_node; simpl; rewrite ?orb_true_r; try discriminate.
+  intros H; inversion H; subst; simpl. rewrite orb_true_r. repeat split. apply f_le_or_l.
 Qed.
